@@ -74,11 +74,45 @@ def cases(tier, seed, rnd):
         for atom in T_ATOMS:
             cs.append(dict(k='T', front=front, atom=atom))
     cs.append(dict(k='bilinear'))
+    # layer M: accepted uses MEAN what was written - the compiled program of  k*atom + affine  (built by a chain of
+    # operations on the real expression) against the oracle, soundness and exactness (machinery of C06/C07)
+    from ..detgen import CHAIN_BASES, MEANING_CHAINS
+    fronts = ['ro'] if tier == 'quick' else ['ro', 'dro']
+    for front in fronts:
+        for base in CHAIN_BASES:
+            specs = []
+            for ci, chain in enumerate(MEANING_CHAINS):
+                forms = ['cons'] if tier == 'quick' and ci not in (1, 5) else ['cons', 'rcons', 'obj']
+                if tier == 'quick' and ci in (0, 6, 8):
+                    continue
+                for form in forms:
+                    specs.append(dict(name='chain:%s:%s:%d:%s' % (front, base, ci, form), atom='chain', base=base,
+                                      chain=chain, form=form, front=front))
+            for i in range(0, len(specs), 2):
+                cs.append(dict(k='M', front=front, base=base, part=i // 2, specs=specs[i:i + 2]))
     return cs
 
 
 def run_case(case, ses):
-    {'S': run_S, 'PW': run_PW, 'T': run_T, 'bilinear': run_bilinear}[case['k']](case, ses)
+    {'S': run_S, 'PW': run_PW, 'T': run_T, 'bilinear': run_bilinear, 'M': run_M}[case['k']](case, ses)
+
+
+def run_M(case, ses):
+    from . import c06, c07
+    from .. import detgen
+    from ..models import RealRO
+    for spec in case['specs']:
+        try:
+            with quiet():
+                r = RealRO(None, spec['front'])
+                detgen.desc_from_spec(spec)(r)
+                r.m.do_math()
+        except Exception as e:
+            # a chain step or the use itself is rejected by RSOME (raises): allowed by the property
+            ses.stats.kinds['M-raises'] = ses.stats.kinds.get('M-raises', 0) + 1
+            continue
+        c06.run_case(dict(spec=spec), ses)
+        c07.run_model(spec, ses)
 
 
 # =====================================================================================
